@@ -323,6 +323,11 @@ class World:
         if ev == 'SpecGC':
             self.m_endpoints.garbage_collect(self.ep_dir)
             return 'ok'
+        if ev == 'Initialize':
+            # node start: what treadmill `node init` / the managers' owners call
+            {'vips': self.vipmgr.initialize, 'rules': self.rulemgr.initialize,
+             'specs': self.epmgr.initialize}[a[0]]()
+            return 'ok'
         if ev == 'SvcStart':
             # a restarted service process: a new object, state re-read from disk
             self.svc = self.m_netsvc.NetworkResourceService(
@@ -486,10 +491,11 @@ def _tla(v):
 
 
 FOCUS = {
-    'vip': ['OwnerAppears', 'OwnerDisappears', 'VipAlloc', 'VipAllocPicked', 'VipFree', 'VipGC'],
-    'rule': ['OwnerAppears', 'OwnerDisappears', 'RuleCreate', 'RuleUnlink', 'RuleGC'],
+    'vip': ['OwnerAppears', 'OwnerDisappears', 'VipAlloc', 'VipAllocPicked', 'VipFree', 'VipGC',
+            'Initialize'],
+    'rule': ['OwnerAppears', 'OwnerDisappears', 'RuleCreate', 'RuleUnlink', 'RuleGC', 'Initialize'],
     'spec': ['OwnerAppears', 'OwnerDisappears', 'SpecCreate', 'SpecUnlink', 'SpecUnlinkAll',
-             'SpecGC'],
+             'SpecGC', 'Initialize'],
     'svc': ['OwnerAppears', 'OwnerDisappears', 'SvcStart', 'Import', 'Synchronize', 'OnCreate',
             'OnDelete'],
 }
@@ -609,6 +615,9 @@ def gen_random(rng, depth, mode):
                 hist.append(('GcPass', [db], sched))
                 continue
             r = (r - 0.10) / 0.90
+            if rng.random() < 0.03:
+                hist.append(('Initialize', [rng.choice(['vips', 'rules', 'specs'])]))
+                continue
             if r < 0.12:
                 cand = [x for x in owners if x not in live]
                 if cand:
